@@ -260,6 +260,21 @@ PROPERTIES = {
                         "the true square root enters only through the integer bracket (r - 4)^2 <= X * 2^F <= (r + 4)^2, which is equivalent to "
                         "|r - sqrt(X * 2^F)| <= 4 over the reals"],
     },
+    "C14": {
+        "level": "other",
+        "verus_units": ["log2inner", "transc"],
+        "explanation": "PARTIAL (level other): the clauses of C14 that a contract can express are proved by Verus on the real generic code, for every supported "
+                       "pair (S, D): log2 of an exact power of two is EXACT - log2_inner (unit log2inner): operand = 2^e exactly  ==>  result = (e - f) in units of one, "
+                       "by the invariant x = 2^(e - count) of the halving loop (rs halves a power of two exactly) and the early return at x == ONE; log2 (unit transc): "
+                       "through the lossless From<S>, for x < 1 through the exact reciprocal 2^(2f) / 2^e and the negation; the SIGN clause - result >= 0 for x >= 1, <= 0 for x <= 1, "
+                       "for log2 and for ln (division by the positive constant LOG2_E keeps the sign); the ERROR clause - log2 / ln return Err only for x <= 0 or for "
+                       "0 < x < 1 whose reciprocal 1 / x does not fit the destination type, and Ok implies x > 0.  The accuracy clauses compare with log2 x / ln x over the "
+                       "reals and are NOT decided",
+        "not_covered": ["|r - log2 x| <= 8 ulp and |r - ln x| <= 2^-23 |ln x| + 8 ulp - no contract within reach of Verus or CBMC expresses log2 / ln of a real (DESIGN.md §6); "
+                        "a change that only degrades the accuracy of the fractional bits of log2 / ln is not detected by this check"],
+        "assumptions": ["trait-level contracts of Fixed (checked_div = truncated quotient, `/`, unary minus, shifts, `*=`) are the statements proved per family in units fracops / bitops / nofrac and linked by the link traits",
+                        "axioms ax_from_src (From<S> for D is value preserving), ax_cmp_const (comparison with the I9F23 constants ONE / TWO by value), ax_from_const"],
+    },
     "C15": {
         "level": "other",
         "verus_units": ["powiacc", "transc"],
